@@ -164,19 +164,7 @@ theorem signals_incrByFloat (args : List Bytes) (b : Body) (h : Handler.incrByFl
     · cases h; exact signals_of_frame fun st _ _ _ => Frame.refl _ st
     · next delta hd =>
       cases h
-      have hr : (Api.formatFloat (F64.add 0 delta)).isSome = true := by
-        unfold Handler.floatArg at hd
-        split at hd
-        · cases hd
-        · dsimp only at hd
-          injection hd with hd
-          split at hd
-          · cases hd
-          · cases hd
-          · next x hx =>
-            cases hd
-            obtain ⟨n, hn⟩ := C09Float.parseFloatText_some hx
-            exact C09Float.ofInt_formattable n _ hn
+      have hr : (Api.formatFloat (F64.add 0 delta)).isSome = true := rfl     -- FormatFloat is total (Model/FloatDec.lean)
       exact signals_of_frame fun st now _ hp => frame_call _ _ (fun _ o => by split <;> rfl)
         (frame_incrByFloat st hp now _ delta (Or.inr hr))
   · cases h
